@@ -1,17 +1,22 @@
 // Package c12 is the runtime-monitoring check of property C12: "Checkpoint
 // serialisation round-trips every supported value or fails loudly".
 //
-// A recursive, reflect-based generator builds values over ~65 statically
-// declared registered types (among them structs with json tags and eino's own
-// schema.Message family) and reflect-built compositions of them (containers of
-// containers, pointers to containers, named containers, arrays, interface- and
-// pointer-keyed maps); every value goes through the real serializer
-// (compose.VerifSerialize / VerifDeserialize) and is compared with the
-// generator's ground truth. For a value inside the universe of the statement
-// an error is a violation, outside of it an error is fine; a different value
-// or a panic is a violation for every input (see NOTES.md, "Universe"). A
-// sub-workload sends generated values (every third time message-typed) through
-// a real interrupted and resumed graph with a byte-only checkpoint store.
+// A recursive, reflect-based generator builds values over ~90 statically
+// declared registered types (among them structs with json tags, structs that
+// embed exported and unexported struct types, eino's own schema.Message family
+// and the input / output types of the built-in components) and reflect-built
+// compositions of them (containers of containers, pointers to containers, named
+// containers, arrays, interface- and pointer-keyed maps); every value goes
+// through the real serializer (compose.VerifSerialize / VerifDeserialize) and is
+// compared with the generator's ground truth. For a value inside the universe of
+// the statement an error is a violation, outside of it an error is fine; a
+// different value or a panic is a violation for every input (see NOTES.md,
+// "Universe"). Sub-workloads: generated values (every third time message-typed)
+// through a real interrupted and resumed graph with a byte-only checkpoint store
+// (blackbox_test.go); typed graphs around every built-in component kind,
+// interrupted before / after the component (components_test.go); values that
+// share a reference (round trip due) and values that contain themselves (an error
+// is the one acceptable outcome; cycle_test.go).
 package c12
 
 import (
@@ -83,12 +88,15 @@ func TestCheck(t *testing.T) {
 	cfg := mon.Load("C12")
 	rep := mon.NewReporter(cfg,
 		"exploration",
-		"each case = one PRNG-generated value (random type over ~60 registered types incl. structs with json tags, eino's schema.Message/Document family, named basics, pointers depth 0-3 with nil at any level, pointers to containers, slices, maps with 25 key types, containers of containers to nesting depth 4, any/custom-interface slots, reflect-built compositions; in switched cases also registered named slice/map types, arrays, interface- and pointer-keyed maps, unregistered named containers, unexported fields, invalid UTF-8, NaN; depth<=6, <=~90 nodes) sent through Marshal->copy->Unmarshal and compared with an independently generated identical twin; non-trivial = the encoder accepted it and it has >=3 nodes and at least one pointer, container or interface slot; distinct by rendered value. Every 10th (quick) / 25th (thorough) case additionally sends three generated values (every third time message-typed: []*schema.Message, *schema.Message, map[string]any of them) through a real interrupted+resumed graph (state set at start, state written by a node, pending node input) with a byte-only store",
+		"each case = one PRNG-generated value (random type over ~90 registered types incl. structs with json tags, eino's schema.Message/Document family, named basics, pointers depth 0-3 with nil at any level, pointers to containers, slices, maps with 25 key types, containers of containers to nesting depth 4, any/custom-interface slots, reflect-built compositions; in switched cases also registered named slice/map types, arrays, interface- and pointer-keyed maps, unregistered named containers, unexported fields, invalid UTF-8, NaN; depth<=6, <=~90 nodes) sent through Marshal->copy->Unmarshal and compared with an independently generated identical twin; non-trivial = the encoder accepted it and it has >=3 nodes and at least one pointer, container or interface slot; distinct by rendered value. Every 10th (quick) / 25th (thorough) case additionally sends three generated values (every third time message-typed: []*schema.Message, *schema.Message, map[string]any of them) through a real interrupted+resumed graph (state set at start, state written by a node, pending node input) with a byte-only store. Third revision: structs that embed structs of exported / unexported types by value and by pointer, two deep, with shadowed and ambiguous names (the promoted exported fields are compared); every 20th / 50th case a typed graph START->[pre]->K->[post]->END around one of the 8 built-in component node kinds (loader, transformer, embedder, indexer, retriever, chat model, chat template, tools node; I/O types taken from the component interfaces by reflection) interrupted before or after K, Invoke or Stream, Pregel or all-predecessor, resumed from the byte-only store: what K / its successor receives and the final output must equal the generated values; every 16th / 40th case a value in which one pointer / slice / map occurs twice without containing itself (round trip due, also as state + pending input of one checkpoint); in a quarter of the shards every 8th / 20th case a value that contains itself (back edge set in a generated value, or one of 8 templates: tree with parent pointers, ring, slice / map holding itself through a pointer or an interface, slice holding its prefix, map reachable from its key, cycle through promoted fields), every 4th of them also through a real checkpoint: an error is the only acceptable outcome",
 		[]string{
 			"inside the stated universe (registered bool/number/valid-UTF-8 string/named basic types, registered structs with exported fields only, pointers at any depth incl. nil and incl. pointers to containers, unnamed slices, unnamed maps with a basic / named basic / registered struct key type, containers of containers, any / registered-interface fields and elements holding such values) every outcome but an exact round trip is a violation, an error included; outside of it (registered named slice/map types, arrays, interface- or pointer-typed map keys, complex, NaN/Inf, invalid UTF-8, unexported fields, unregistered types, chan/func, a nil interface at the top) an error is 'loud' and fine, a different value or a panic is a violation",
 			"the set of registered types is known to the check statically: eino's builtin basics, what the check registers, and every type schema.Message / schema.Document are made of (documented by compose/checkpoint.go as registered by eino)",
 			"the hooks compose.VerifSerialize/VerifDeserialize are plain aliases of internal/serialization.Marshal/Unmarshal",
-			"not generated: cyclic or aliased pointer graphs, types with custom MarshalJSON/MarshalText; map keys that are pointers are matched by what they point to",
+			"not generated: types with custom MarshalJSON/MarshalText; map keys that are pointers are matched by what they point to",
+			"a struct that embeds a struct of an unexported type is outside the universe (the embedded field itself is unexported): an error is fine, but without an error every field that an exported selector on the outer struct reaches (promoted fields, followed through nested embedded fields; not the hidden or ambiguous ones) must come back",
+			"a value that contains itself is outside the universe and has exactly one acceptable outcome, an error; a process-fatal stack overflow is attributed by the driver to the running case (crash/fatal/<first eino frame>) and loses the shard's report, which is why such values are generated in a quarter of the shards only; the stack limit of the child is lowered to 48 MB while they are encoded",
+			"the input / output types of the built-in component interfaces count as registered types (compose/checkpoint.go: 'all built-in eino types are already registered'); the fakes that implement the components record their input and return generated values; the tools node is eino's own, its expected output is taken from an uninterrupted run of the same graph",
 			"floats are compared with == (so -0 equals +0); nil and empty containers are equal",
 			"the generator's twin value is the ground truth (generation is a pure function of the seed; verified by comparing the twins before use)",
 		},
@@ -119,6 +127,31 @@ func TestCheck(t *testing.T) {
 	rep.Require("values_outside_universe/interface-key", 20)
 	rep.Require("values_outside_universe/array", 20)
 	rep.Require("generated/tagged-key-struct", 10)
+	// ... and those of the third revision
+	compEvery := int64(cfg.Pick(20, 50))
+	aliasEvery := int64(cfg.Pick(16, 40))
+	cycEvery := int64(cfg.Pick(8, 20))
+	cyclic := cyclicShard(cfg)
+	rep.Require("generated/soft:embedded-unexported", 100)
+	rep.Require("values_outside_universe/embedded-unexported", 50)
+	rep.Require("outside_outcome/embedded-unexported/"+clsOK, 20)
+	rep.Require("comp_bb/"+bbOK, 50)
+	rep.Require("comp_bb_store_gets", 50)
+	for _, k := range compKinds {
+		rep.Require("comp_bb_kind/"+k.name+"/before/"+bbOK, 1)
+		rep.Require("comp_bb_kind/"+k.name+"/after/"+bbOK, 1)
+	}
+	rep.Require("component_io_types", 8)
+	rep.Require("aliased/"+clsOK, 50)
+	rep.Require("aliased_bb/"+bbOK, 10)
+	rep.Require("cyc/loud-error", 50)
+	rep.Require("cyc_bb/cases", 10)
+	if cfg.Shard == 0 {
+		rep.Count("component_io_types", int64(len(componentIOTypes)))
+		for _, x := range componentIO {
+			rep.Count("component_io/"+x.component+"."+x.method+"/"+x.dir+"/"+x.t.String(), 1)
+		}
+	}
 
 	rep.Cases(n, func(idx int64, rng *mon.Rand) {
 		prof := newProfile(rng.Sub("profile"))
@@ -217,6 +250,16 @@ func TestCheck(t *testing.T) {
 
 		if idx%bbEvery == 0 {
 			blackBoxCase(rep, rng.Sub("blackbox"), prof)
+		}
+		// third revision: component graphs, shared references, values that contain themselves
+		if idx%compEvery == 5 {
+			componentCase(rep, rng.Sub("component"), prof)
+		}
+		if idx%aliasEvery == 3 {
+			aliasedCase(rep, rng.Sub("aliased"))
+		}
+		if cyclic && idx%cycEvery == 7 {
+			cyclicCase(rep, rng.Sub("cyclic"))
 		}
 		rep.AddEvaluations(roundtrips - before - 1)
 		rep.Count("decode_outcome_depends_on_map_order", orderDependent-odBefore)
